@@ -60,7 +60,7 @@ def fixture(sym):
 
 def MW(fx, sym):
     ch = fx['thermo'].chemicals
-    return list(ch.MW)
+    return list(ch.MW) if sym else [float(x) for x in ch.MW]
 
 
 def balanced_stoichiometry(E, fx, name, reactant, participants):
